@@ -339,7 +339,7 @@ def driver_specs():
         "Canonical": {"driver": "Canonical", "T": 432.1, "cycles": 3, "atoms": gas, "calc": {"kind": "soft"}, "table": [{"name": "d", "move": D, "interval": 2, "probability": 0.7, "min": 1}, {"name": "r", "move": {"t": "D", "op": [{"t": "Ball", "step": 0.2}, {"t": "Box", "step": 0.1}]}}]},
         "HamiltonianCanonical": {"driver": "HamiltonianCanonical", "T": 512.3, "cycles": 2, "atoms": {"kind": "gas", "n": 3, "edge": 6.0, "pbc": False, "seed": 5}, "calc": {"kind": "harmonic", "k": 1.5}, "table": [{"name": "h", "move": {"t": "H", "dt": 2.0, "steps": 4}}]},
         "Isobaric": {"driver": "Isobaric", "T": 812.5, "P": 0.0123, "cycles": 3, "atoms": gas, "calc": {"kind": "soft"}, "table": [{"name": "c", "move": {"t": "C", "op": {"t": "Aniso", "mv": 0.04, "mask": [[1, 0, 0], [0, 1, 0], [0, 0, 0]]}, "scale": False}}, {"name": "d", "move": D}]},
-        "Isotension": {"driver": "Isotension", "T": 812.5, "P": 0.0123, "S": [[0.01, 0.002, 0], [0.002, 0.0, 0], [0, 0, -0.01]], "cycles": 3, "atoms": gas, "calc": {"kind": "soft"}, "table": [{"name": "c", "move": {"t": "C", "op": {"t": "Shape", "mv": 0.04}}}, {"name": "d", "move": D}]},
+        "Isotension": {"driver": "Isotension", "T": 812.5, "P": 0.0123, "S": [[0.01, 0.002, 0], [-0.001, 0.0, 0.003], [0, 0, -0.01]], "cycles": 3, "atoms": gas, "calc": {"kind": "soft"}, "table": [{"name": "c", "move": {"t": "C", "op": {"t": "Shape", "mv": 0.04}}}, {"name": "d", "move": D}]},
         "GrandCanonical": {"driver": "GrandCanonical", "T": 1512.5, "mu": -0.0456, "nexch": 4, "cycles": 3, "species": 2, "atoms": gas, "calc": {"kind": "soft"}, "table": [{"name": "x", "move": {"t": "E", "op": {"t": "TranslationRotation"}, "bias": 0.4}}, {"name": "d", "move": D}]},
     }
 
